@@ -8,8 +8,8 @@ from runner import PropBase
 from vlib import Rng
 
 # pools shared with harness/src/bin/c12.rs and ocaml/c12/main.ml
-LEAF_OF_CF = [0, 1, 1, 2, 3]          # cf 1 and 2 are "lib0.so" and "/x/lib0.so": same leafname
-NCF, NCI, NDF, NDI = 5, 3, 3, 3
+LEAF_OF_CF = [0, 1, 1, 2, 3, 4, 5]    # cf 1 and 2 are "lib0.so" and "/x/lib0.so": same leafname; 5 "LIB0.SO"; 6 "lib0.soaa"
+NCF, NCI, NDF, NDI = 7, 5, 4, 4
 OK, NOTFOUND, MISSING, LOAD, PARSE = range(5)
 STAT = {OK: (1, 0), NOTFOUND: (0, 0), MISSING: (0, 0), LOAD: (0, 0), PARSE: (1, 1)}
 
@@ -97,6 +97,12 @@ PAIR_VARIANTS = [
     ((0, 0, 1, 1), (0, 0, 2, 1)),    # differ only in debug_file (both usable with get_symbol_at_address)
     ((4, 0, 1, 1), (4, 0, 1, 2)),    # differ only in debug_id
     ((1, 0, 0, 0), (1, 1, 0, 0)),    # code_id None vs Some, no debug info at all
+    # round 4: keys that a normalising / hashing / concatenating key function would merge
+    ((1, 1, 1, 1), (5, 1, 1, 1)),    # code_file differs only in case ("lib0.so" / "LIB0.SO")
+    ((1, 1, 1, 1), (6, 3, 1, 1)),    # "lib0.so"+"aa11" vs "lib0.soaa"+"11": equal when the fields are concatenated
+    ((1, 0, 1, 1), (1, 4, 1, 1)),    # code_id None vs Some("")
+    ((1, 1, 1, 1), (1, 1, 3, 1)),    # debug_file differs only in case
+    ((1, 1, 1, 1), (1, 1, 1, 3)),    # debug ids: different GUID (last digit), same age
 ]
 
 
@@ -114,6 +120,86 @@ def random_idents(rng, nk):
         if cand not in ids:
             ids.append(cand)
     return ids
+
+
+ALL_IDENTS = [(cf, ci, df, di) for cf in range(NCF) for ci in range(NCI) for df in range(NDF) for di in range(NDI)]
+
+
+def many_idents(rng, nk):
+    """nk distinct identities out of the 560 of the pools (for the many-modules families)"""
+    pool = list(ALL_IDENTS)
+    out = []
+    for _ in range(nk):
+        out.append(pool.pop(rng.below(len(pool))))
+    return out
+
+
+def mask_stats(case, ans):
+    """modes 5/6 (schedule not under the case's control): the stats entry of a leaf name shared by two requested
+    modules with different answers depends on who finished last; mask its value on both sides"""
+    f = ans.split(";")
+    if len(f) != 8 or f[5] == "-":
+        return ans
+    mode, tasks, keys, sched = parse_case(case)
+    by_leaf = {}
+    for lk in tasks:
+        for k, _ in lk:
+            by_leaf.setdefault(LEAF_OF_CF[keys[k][2]], set()).add(STAT[keys[k][1]])
+    ents = []
+    for e in f[5].split(","):
+        leaf = e.split(":")[0]
+        if leaf.isdigit() and len(by_leaf.get(int(leaf), ())) > 1:
+            e = leaf + ":*:*"
+        ents.append(e)
+    f[5] = ",".join(ents)
+    return ";".join(f)
+
+
+def schedule_distribution(cases):
+    """static features of the generated schedules (printed into the evidence)"""
+    d = {"by_mode": {}, "answers": {}, "spurious_polls(same task twice in a row)": 0, "late_start(a task unpolled in the first half)": 0,
+         "overlap_possible_distinct_keys(>=2 keys, >=2 tasks)": 0, "potential_waiters>=3(>=4 tasks share a key)": 0,
+         "suspending_supplier": 0, "remembered_failure_requested_twice": 0, "max_tasks": 0, "max_keys": 0, "max_schedule_len": 0}
+    names = ["Ok", "NotFound", "MissingDebugFileOrId", "LoadError", "ParseError"]
+    for line in cases:
+        if not line or line[0] == "#":
+            continue
+        mode, tasks, keys, sched = parse_case(line)
+        d["by_mode"][str(mode)] = d["by_mode"].get(str(mode), 0) + 1
+        d["max_tasks"] = max(d["max_tasks"], len(tasks))
+        d["max_keys"] = max(d["max_keys"], len(keys))
+        d["max_schedule_len"] = max(d["max_schedule_len"], len(sched))
+        if mode == 2:
+            continue
+        cnt = {}
+        for lk in tasks:
+            for k in set(k for k, _ in lk):
+                cnt[k] = cnt.get(k, 0) + 1
+        tot = {}
+        for lk in tasks:
+            for k, _ in lk:
+                tot[k] = tot.get(k, 0) + 1
+        for k in cnt:
+            a = names[keys[k][1]] if keys[k][1] < 5 else "?"
+            d["answers"][a] = d["answers"].get(a, 0) + 1
+        if any(keys[k][1] != OK and n >= 2 for k, n in tot.items()):
+            d["remembered_failure_requested_twice"] += 1
+        if any(keys[k][0] > 0 for k in cnt):
+            d["suspending_supplier"] += 1
+        if len(cnt) >= 2 and len(tasks) >= 2:
+            d["overlap_possible_distinct_keys(>=2 keys, >=2 tasks)"] += 1
+        if any(n >= 4 for n in cnt.values()):
+            d["potential_waiters>=3(>=4 tasks share a key)"] += 1
+        if mode == 0:
+            if any(a == b for a, b in zip(sched, sched[1:])):
+                d["spurious_polls(same task twice in a row)"] += 1
+            half = sched[:len(sched) // 2]
+            if len(sched) >= 4 and any(t not in half for t in range(len(tasks))):
+                d["late_start(a task unpolled in the first half)"] += 1
+        elif mode == 5:
+            if any(x > 0 for x in sched[2:]):
+                d["late_start(a task unpolled in the first half)"] += 1
+    return d
 
 
 class C12(PropBase):
@@ -189,8 +275,8 @@ class C12(PropBase):
                     for sched in scheds:
                         var = PAIR_VARIANTS[idx % len(PAIR_VARIANTS)]
                         kinds = idx // len(PAIR_VARIANTS)
-                        tasks = [[(k, (kinds + i) % 3) for i, k in enumerate(l0)],
-                                 [(k, (kinds // 3 + i) % 3) for i, k in enumerate(l1)]]
+                        tasks = [[(k, (kinds + i) % 4) for i, k in enumerate(l0)],
+                                 [(k, (kinds // 4 + i) % 4) for i, k in enumerate(l1)]]
                         keys = [sc[0] + var[0], sc[1] + var[1]]
                         cases.append(fmt_case(0, tasks, keys, sched))
                         idx += 1
@@ -206,7 +292,7 @@ class C12(PropBase):
                             for (o0, o1) in ((OK, NOTFOUND), (PARSE, OK)):
                                 for sched in scheds3:
                                     var = PAIR_VARIANTS[idx % len(PAIR_VARIANTS)]
-                                    tasks = [[(k, (idx + i) % 3) for i, k in enumerate(l)] for l in (l0, l1, l2)]
+                                    tasks = [[(k, (idx + i) % 4) for i, k in enumerate(l)] for l in (l0, l1, l2)]
                                     keys = [(s0, o0) + var[0], (s1, o1) + var[1]]
                                     cases.append(fmt_case(0, tasks, keys, sched))
                                     idx += 1
@@ -218,7 +304,7 @@ class C12(PropBase):
             nk = rng.range(1, 3)
             idents = random_idents(rng, nk)
             keys = [(rng.range(0, 3), rng.choice([OK, OK, NOTFOUND, MISSING, LOAD, PARSE])) + idents[i] for i in range(nk)]
-            tasks = [[(rng.below(nk), rng.below(3)) for _ in range(rng.range(1, 3))] for _ in range(nt)]
+            tasks = [[(rng.below(nk), rng.below(4)) for _ in range(rng.range(1, 3))] for _ in range(nt)]
             style = rng.below(5)
             sched = []
             n = rng.range(0, 40)
@@ -251,7 +337,7 @@ class C12(PropBase):
             nk = rng.range(1, 2)
             idents = random_idents(rng, nk)
             keys = [(rng.range(1, 3), rng.choice([OK, NOTFOUND, PARSE])) + idents[i] for i in range(nk)]
-            tasks = [[(rng.below(nk), rng.below(3)) for _ in range(rng.range(1, 3))] for _ in range(nt)]
+            tasks = [[(rng.below(nk), rng.below(4)) for _ in range(rng.range(1, 3))] for _ in range(nt)]
             picks = [rng.below(nt) for _ in range(rng.range(0, 30))]
             cases.append(fmt_case(1, tasks, keys, picks))
         dist["wake_driven_contention"] = nw
@@ -275,7 +361,7 @@ class C12(PropBase):
                         for o1 in range(5):
                             for sched in itertools.product((0, 1), repeat=6):
                                 var = PAIR_VARIANTS[n5 % len(PAIR_VARIANTS)]
-                                tasks = [[(k, (n5 + i) % 3) for i, k in enumerate(l)] for l in tl]
+                                tasks = [[(k, (n5 + i) % 4) for i, k in enumerate(l)] for l in tl]
                                 cases.append(fmt_case(0, tasks, [(s0, o0) + var[0], (s1, o1) + var[1]], sched))
                                 n5 += 1
         dist["all_error_variants_exhaustive"] = n5
@@ -286,7 +372,7 @@ class C12(PropBase):
             for l1 in lookups:
                 for sc in scripts:
                     var = PAIR_VARIANTS[nj % len(PAIR_VARIANTS)]
-                    tasks = [[(k, (nj + i) % 3) for i, k in enumerate(l0)], [(k, (nj // 3 + i) % 3) for i, k in enumerate(l1)]]
+                    tasks = [[(k, (nj + i) % 4) for i, k in enumerate(l0)], [(k, (nj // 4 + i) % 4) for i, k in enumerate(l1)]]
                     cases.append(fmt_case(4, tasks, [sc[0] + var[0], sc[1] + var[1]], []))
                     nj += 1
         for r in range(1500 if tier == "quick" else 30000):
@@ -294,7 +380,7 @@ class C12(PropBase):
             nk = rng.range(1, 3)
             idents = random_idents(rng, nk)
             keys = [(rng.range(0, 3), rng.below(5)) + idents[i] for i in range(nk)]
-            tasks = [[(rng.below(nk), rng.below(3)) for _ in range(rng.range(1, 3))] for _ in range(nt)]
+            tasks = [[(rng.below(nk), rng.below(4)) for _ in range(rng.range(1, 3))] for _ in range(nt)]
             cases.append(fmt_case(4, tasks, keys, []))
             nj += 1
         dist["join_all"] = nj
@@ -314,7 +400,7 @@ class C12(PropBase):
             nk = rng.range(1, 2)
             idents = random_idents(rng, nk)
             keys = [(rng.range(1, 3), rng.choice([OK, NOTFOUND, LOAD, PARSE])) + idents[i] for i in range(nk)]
-            tasks = [[(rng.below(nk), rng.below(3)) for _ in range(rng.range(1, 3))] for _ in range(nt)]
+            tasks = [[(rng.below(nk), rng.below(4)) for _ in range(rng.range(1, 3))] for _ in range(nt)]
             picks = [(100 + rng.below(nt)) if rng.chance(1, 4) else rng.below(nt) for _ in range(rng.range(2, 30))]
             cases.append(fmt_case(3, tasks, keys, picks))
             nd += 1
@@ -340,12 +426,122 @@ class C12(PropBase):
             cases.append(fmt_case(2, tasks, keys, picks))
             nf += 1
         dist["locate_file"] = nf
+
+        # ---------------------------------------------------------------- round 4 families
+        q = tier == "quick"
+
+        def lookups_over(nk, n, revisit):
+            """n lookups over keys 0..nk-1: first-time visits in random order, then `revisit` re-lookups (early keys first)"""
+            order = list(range(nk))
+            for i in range(nk - 1, 0, -1):
+                j = rng.below(i + 1)
+                order[i], order[j] = order[j], order[i]
+            seq_ = (order * (n // nk + 1))[:n]
+            return [(k, rng.below(4)) for k in seq_] + [(order[i % nk], rng.below(4)) for i in range(revisit)]
+
+        # many modules on one symbolizer (a bounded / evicting / colliding cache re-asks the supplier): 20..140 distinct keys,
+        # every key looked up again after all the others
+        nm = 0
+        for r in range(120 if q else 1200):
+            nk = rng.range(20, 140) if r % 8 else rng.range(300, 520)
+            idents = many_idents(rng, nk)
+            keys = [(rng.choice([0, 0, 0, 1]), rng.choice([OK, OK, NOTFOUND, MISSING, LOAD, PARSE])) + idents[i] for i in range(nk)]
+            mode = [0, 0, 1, 4, 6][r % 5]
+            nt = rng.range(1, 3)
+            tasks = [lookups_over(nk, nk if t == 0 else rng.range(1, nk), rng.range(1, 12) if t else min(nk, 40)) for t in range(nt)]
+            sched = [rng.below(nt) for _ in range(rng.range(0, 60))] if mode in (0, 1) else []
+            cases.append(fmt_case(mode, tasks, keys, sched))
+            nm += 1
+        dist["many_modules(20..520 keys)"] = nm
+        # long bursts of spurious polls of requesters that wait for an in-flight lookup (a waiter that gives up waiting
+        # after N polls and asks the supplier itself), long suspensions
+        nb = 0
+        for r in range(400 if q else 6000):
+            nt = rng.range(2, 4)
+            nk = rng.range(1, 2)
+            idents = random_idents(rng, nk)
+            keys = [(rng.range(1, 3) if r % 4 else rng.range(10, 60), rng.choice([OK, NOTFOUND, LOAD, PARSE])) + idents[i] for i in range(nk)]
+            tasks = [[(rng.below(nk), rng.below(4)) for _ in range(rng.range(1, 2))] for _ in range(nt)]
+            sched = [0]
+            for _ in range(rng.range(1, 4)):
+                sched += [rng.range(1, nt - 1)] * rng.choice([3, 17, 33, 65, 129, 300])
+                sched += [rng.below(nt)] * rng.range(0, 2)
+            cases.append(fmt_case(0, tasks, keys, sched))
+            nb += 1
+        dist["long_spurious_bursts(3..300 polls of a waiter)"] = nb
+        # many waiters (4..8 tasks, so >= 3 waiters) on one or two in-flight keys; wake-driven and explicit order;
+        # some tasks start late (explicit order: not polled during a long prefix)
+        nmw = 0
+        for r in range(1500 if q else 30000):
+            nt = rng.range(4, 8)
+            nk = rng.range(1, 2)
+            idents = random_idents(rng, nk)
+            keys = [(rng.range(1, 4), rng.choice([OK, NOTFOUND, MISSING, LOAD, PARSE])) + idents[i] for i in range(nk)]
+            tasks = [[(0 if i == 0 else rng.below(nk), rng.below(4))] + [(rng.below(nk), rng.below(4)) for _ in range(rng.range(0, 2))]
+                     for i in range(nt)]
+            if r % 3 == 0:
+                late = rng.range(1, nt - 1)
+                early = [i for i in range(nt) if i != late]
+                sched = [rng.choice(early) for _ in range(rng.range(4, 25))] + [rng.below(nt) for _ in range(rng.range(0, 20))]
+                cases.append(fmt_case(0, tasks, keys, sched))
+            else:
+                cases.append(fmt_case(1, tasks, keys, [rng.below(nt) for _ in range(rng.range(0, 40))]))
+            nmw += 1
+        dist["many_waiters(4..8 tasks on 1..2 keys)"] = nmw
+        # nested join_all as the processor does it (join_all over groups of sequential walkers), shared root waker
+        nn = 0
+        for r in range(800 if q else 12000):
+            nt = rng.range(3, 9)
+            nk = rng.range(1, 3)
+            idents = random_idents(rng, nk)
+            keys = [(rng.range(0, 3), rng.below(5)) + idents[i] for i in range(nk)]
+            tasks = [[(rng.below(nk), rng.below(4)) for _ in range(rng.range(1, 4))] for _ in range(nt)]
+            groups, left = [], nt
+            while left > 0:
+                g = rng.range(1, left)
+                groups.append(g)
+                left -= g
+            cases.append(fmt_case(4, tasks, keys, groups))
+            nn += 1
+        dist["nested_join_all"] = nn
+        # join_all over more than 30 children (a dump with > 30 threads): FuturesUnordered, one waker per child
+        nbig = 0
+        for r in range(150 if q else 2500):
+            nt = rng.range(31, 48) if r % 5 else rng.range(2, 30)
+            nk = rng.range(1, 4)
+            idents = random_idents(rng, nk)
+            keys = [(rng.range(0, 3), rng.below(5)) + idents[i] for i in range(nk)]
+            tasks = [[(rng.below(nk), rng.below(4)) for _ in range(rng.range(1, 3))] for _ in range(nt)]
+            cases.append(fmt_case(6, tasks, keys, []))
+            nbig += 1
+        dist["join_all_big(>30 children)"] = nbig
+        # the real multi-threaded tokio runtime: 2..8 workers, spawned tasks / spawned join_alls, late starters
+        nth = 0
+        by_workers = {}
+        for r in range(1200 if q else 20000):
+            nt = rng.range(2, 8)
+            nk = rng.range(1, 3)
+            idents = random_idents(rng, nk)
+            keys = [(rng.range(0, 4), rng.below(5)) + idents[i] for i in range(nk)]
+            tasks = [[(rng.below(nk), rng.below(4)) for _ in range(rng.range(1, 3))] for _ in range(nt)]
+            workers = rng.range(2, 8)
+            by_workers[workers] = by_workers.get(workers, 0) + 1
+            sched = [workers, rng.below(4)] + [rng.choice([0, 0, 1, 3, 6]) for _ in range(nt)]
+            cases.append(fmt_case(5, tasks, keys, sched))
+            nth += 1
+        dist["tokio_multi_thread"] = nth
+        dist["tokio_multi_thread_by_workers"] = {str(k): by_workers[k] for k in sorted(by_workers)}
+        dist.update(schedule_distribution(cases))
         return cases, dist, True
 
     # ------------------------------------------------------------------ canonical forms
     @staticmethod
     def _canon(case, ans):
-        return "P;;" if ans.startswith("P;;") else ans
+        if ans.startswith("P;;"):
+            return "P;;"
+        if case[:2] in ("5 ", "6 "):
+            return mask_stats(case, ans)
+        return ans
 
     def canon_model(self, case, ans):
         return self._canon(case, ans)
@@ -359,9 +555,9 @@ class C12(PropBase):
         if ans.startswith("P;;"):
             return "a lookup panicked: " + ans[3:200]
         f = ans.split(";")
-        if len(f) != 7:
+        if len(f) != 8:
             return "unparseable answer " + ans[:120]
-        status, log, mid, res, pend, stats, rounds = f
+        status, log, mid, res, pend, stats, rounds, obs = f
         if status == "HUNG":
             return "requests never completed: tasks still pending after 10000 round-robin rounds (deadlock / lost request)"
         if status == "LOST":
@@ -441,6 +637,8 @@ class C12(PropBase):
         for leaf, ks in by_leaf.items():
             if st[leaf] not in [STAT[keys[k][1]] for k in ks]:
                 return "stats for leaf %d say loaded/corrupt=%r, supplier answered %r" % (leaf, st[leaf], [keys[k][1] for k in ks])
+        if obs != "-":
+            return "a requester's own view was inconsistent: " + obs
         return None
 
     def oracle_files(self, tasks, keys, log, res):
